@@ -86,6 +86,20 @@ def configs(rng, thorough):
         return [E, W, IR.func("K", ["z"], ["k"])]
     out.append((IR.prog("top", ordered(), selected=["w"]), list(IR.UNSET), "dag/select-through-ordering-edge", "sync"))
     out.append((IR.prog("top", list(reversed(ordered()))), ["w"], "dag/select-through-ordering-edge", "async"))
+    # a cycle that runs THROUGH a nested graph whose seed is bound inside it (the wrapper renames its output onto the seed):
+    # nothing but `step` is needed from the caller
+    def nested_cycle():
+        inner = IR.prog("inner", [IR.func("bump", ["prev", "step"], ["count"])], bound=[["prev", "bound.inner.prev"]], max_iter=1000)
+        gn = IR.graph_node(inner, name="acc", inputs=["prev", "step"], outputs=["prev"], outmap=[["count", "prev"]])
+        return [gn, IR.route("again", ["prev"], ["acc", "END"], [["acc"], ["END"]])]
+    out.append((IR.prog("top", nested_cycle(), max_iter=10), list(IR.UNSET), "cycle-through-nested-graph-with-inner-seed", "sync"))
+    out.append((IR.prog("top", list(reversed(nested_cycle())), max_iter=10), list(IR.UNSET), "cycle-through-nested-graph-with-inner-seed", "async"))
+    # a declared topology in which ONE node pair is listed in two edge tuples, one value each
+    sp = IR.func("split", ["text"], ["head", "tail"])
+    jn = IR.func("join", ["head", "tail", "sep"], ["out"])
+    pd = IR.prog("top", [sp, jn])
+    pd["edges"] = [["split", "join", "head"], ["split", "join", "tail"]]
+    out.append((pd, list(IR.UNSET), "dag+declared-edges/pair-listed-twice", "sync"))
     tries = 0
     while len(out) < n and tries < 100000:
         tries += 1
@@ -236,6 +250,10 @@ def run(tier, seed):
         wit = {"prog": prog, "select": sel, "specified": sp, "reported": rs, "kind": kind}
         if set(rs["required"]) & set(rs["optional"]) or any(set(ps) & (set(rs["required"]) | set(rs["optional"])) for ps in rs["entry"].values()):
             ctx.violation("categories-not-disjoint", wit, f"{rs}")
+            continue
+        pre_filled = set(rs["bound"]) & (set(rs["required"]) | {p for ps in rs["entry"].values() for p in ps})
+        if pre_filled:
+            ctx.violation("bound-name-still-demanded", wit, f"{sorted(pre_filled)} are bound (pre-filled) yet listed as required / entry-point parameters: {rs}")
             continue
         ent_r = {k: sorted(v) for k, v in rs["entry"].items()}
         ent_s = {k: sorted(v) for k, v in sp["entry"].items()}
